@@ -865,3 +865,34 @@ def whole_busy_set(ctx, rid, what=""):
     if n < 2:
         raise AnalysisError(f"{rid}: only {n} membership tests against locked_paths() found (expected >= 2: sort_trajstate, treat_output)")
     return covered
+
+
+
+def commit_refreshes_state(ctx, rid, what=""):
+    """write_toml refreshes the run state it persists on every call: for each key K that it
+    stores as self.config["current"][K] = ..., one such store dominates the dump (it is executed
+    on every path to the file write - not only inside a loop that may run zero times or under a
+    condition)."""
+    from ..cfg import cfg_of
+    from ..loader import AnalysisError
+    from ..util import REPEX
+    f = ctx.tree.func(REPEX, "REPEX_state.write_toml")
+    cfg = cfg_of(f)
+    dumps = [c for c in walk_local(f) if isinstance(c, ast.Call) and last_name(c) in ("dump", "dumps")]
+    if len(dumps) != 1:
+        raise AnalysisError(f"{rid}: exactly one dump call expected in write_toml")
+    dn = cfg.node_of(dumps[0])
+    keys = {}
+    for st in walk_local(f):
+        if isinstance(st, ast.Assign) and len(st.targets) == 1:
+            c = _cfg_chain(st.targets[0], {})
+            if c and len(c) == 2 and c[0] == "current":
+                keys.setdefault(c[1], []).append(st)
+    if len(keys) < 3:
+        raise AnalysisError(f"{rid}: only {len(keys)} keys of [current] stored by write_toml (expected >= 3)")
+    for k, sts in sorted(keys.items()):
+        if any(cfg.dominates(nd, dn) for st in sts for nd in cfg.nodes_of(st)):
+            ctx.ok(rid, sts[0], f"write_toml: current.{k} is refreshed on every path to the file write")
+        else:
+            ctx.bad(rid, sts[0], f"write_toml stores current.{k} only conditionally (inside a loop that may not run, or under a test): when that code is skipped the restart file keeps the value of an earlier step{what}",
+                    construct=f"write_toml: conditional refresh of current.{k}")
